@@ -1358,6 +1358,7 @@ static void cmd_new(char **tok, int ntok)
     emit_state(&g_out, e);
     if (rc < 0) sb_printf(&g_out, ",\"rcn\":%d", rc);
     sb_printf(&g_out, ",\"sidn\":\"%s\"", (!e->server && opt_get(tok, ntok, "sid")) ? opt_get(tok, ntok, "sid") : "-");
+    sb_printf(&g_out, ",\"oidlen\":%d", (e->ssl && !e->server) ? (int) e->ssl->sessionIdLen : 0);     /* the session id a client puts into its ClientHello */
     emit_end(&g_out);
 }
 
